@@ -366,21 +366,39 @@ def run_coupler(case):
     names, it, script, fr = case['layouts'], case['it'], case['script'], case['fracs']
     viol = []
     sigbase = 'coupler/%s/it=%s/%s' % ('+'.join(names), it, ','.join(script))
+    if case.get('stop'):
+        sigbase += '/stop=%d@%d' % tuple(case['stop'])
 
     def bad(kind, msg):
         viol.append({'sig': sigbase + '/' + kind, 'msg': '%s: %s' % (sigbase, msg)})
-    models = []
-    for j, nme in enumerate(names):
-        X0 = _mk_layout(nme)
-        mm = ScriptModel(0.0, script if j == case.get('driver', 0) else [], None, 60, layout=X0)
-        mm.X = X0
-        mm._minf, mm._maxf = fr
-        # distinct dynamics per member so that a mis-sliced flat vector changes the values
-        mm.off = 3 * j
-        mm.getdXdt = (lambda mm_: (lambda t, x: (mm_.dxdt_calls.append((t, _describe(x))) or
-                                                  [(-0.5 - 0.25 * (i + mm_.off)) * np.asarray(xi) * 1.0
-                                                   for i, xi in enumerate(x)])))(mm)
-        models.append(mm)
+    stop = case.get('stop')          # [member index, step] or None: that member requests a stop in its k-th postProcess
+
+    def build(stop_):
+        ms = []
+        for j, nme in enumerate(names):
+            X0 = _mk_layout(nme)
+            mm = ScriptModel(0.0, script if j == case.get('driver', 0) else [], (stop_[1] if (stop_ and stop_[0] == j) else None), 60, layout=X0)
+            mm.X = X0
+            mm._minf, mm._maxf = fr
+            # distinct dynamics per member so that a mis-sliced flat vector changes the values
+            mm.off = 3 * j
+            mm.getdXdt = (lambda mm_: (lambda t, x: (mm_.dxdt_calls.append((t, _describe(x))) or
+                                                      [(-0.5 - 0.25 * (i + mm_.off)) * np.asarray(xi) * 1.0
+                                                       for i, xi in enumerate(x)])))(mm)
+            ms.append(mm)
+        return ms
+    full_times = None
+    if stop:
+        # the same coupled system without the stop request gives the step sequence the stopped run must be a prefix of
+        ref_models = build(None)
+        cref = Coupler(ref_models)
+        try:
+            cref.solve(1.0, solverType=_iterator(it, []), minDtFrac=fr[0], maxDtFrac=fr[1])
+            full_times = list(cref.time[1:])
+        except Exception as e:
+            bad('exception', 'reference run without stop: %s: %s' % (type(e).__name__, e))
+            return {'viol': viol, 'states': 0, 'outcome': 'exception'}
+    models = build(stop)
     structs = [_describe(mm.X) for mm in models]
     x0 = [[np.array(x, copy=True) for x in mm.X] for mm in models]
     c = Coupler(models)
@@ -404,7 +422,20 @@ def run_coupler(case):
     for mm in models:
         if mm.times != ctimes:
             bad('member-clock', '%r vs coupler %r' % (mm.times[:5], ctimes[:5])); break
-    if not ctimes or ctimes[-1] != 1.0:
+    stopped = bool(stop) and full_times is not None and stop[1] <= len(full_times)
+    if stopped:
+        # a stop request from ANY member ends the coupled run at that step
+        if len(ctimes) != stop[1]:
+            bad('stop-ignored/member=%d-of-%d' % (stop[0], len(models)),
+                'member %d requested a stop at step %d; the coupled run took %d steps (%d without the request)'
+                % (stop[0], stop[1], len(ctimes), len(full_times)))
+        elif ctimes != full_times[:stop[1]]:
+            bad('stop-changes-steps', '%r vs %r' % (ctimes, full_times[:stop[1]]))
+        for j, mm in enumerate(models):
+            npost = sum(1 for e in mm.log if e[0] == 'post')
+            if npost != len(ctimes):
+                bad('postProcess-count', 'member %d saw %d postProcess calls for %d steps' % (j, npost, len(ctimes))); break
+    elif not ctimes or ctimes[-1] != 1.0:
         bad('end-time', 'coupler ended at %r' % (ctimes[-1] if ctimes else None))
     if any(b <= a for a, b in zip([0.0] + ctimes[:-1], ctimes)):
         bad('not-increasing', repr(ctimes[:6]))
@@ -421,7 +452,7 @@ def run_coupler(case):
     else:
         bad('correct-count', '%d correctdXdt calls for %d steps' % (len(dts_used), len(ctimes)))
     return {'viol': viol, 'states': len(ctimes), 'transitions': len(ctimes) * len(models),
-            'outcome': 'steps=%d' % len(ctimes)}
+            'outcome': 'steps=%d%s' % (len(ctimes), ',stopped' if stopped else '')}
 
 
 # ------------------------------------------------------------------------------------------------------
@@ -675,7 +706,9 @@ def run(ctx):
         for it in ['euler', 'rk4']:
             for sc in cscripts:
                 for drv in range(len(g)):
-                    ccases.append({'layouts': list(g), 'it': it, 'script': sc, 'fracs': [0.05, 0.5], 'driver': drv})
+                    # the stop request comes from no member, or from each member position in turn (step 1 / 2)
+                    for stop in [None] + [[j, k] for j in range(len(g)) for k in ((1, 2) if sc in ([], ['mid']) else (1,))]:
+                        ccases.append({'layouts': list(g), 'it': it, 'script': sc, 'fracs': [0.05, 0.5], 'driver': drv, 'stop': stop})
     ctx.product_run('coupler', 'checks.c05:run_coupler', ccases)
 
     rcases = []
